@@ -10,7 +10,8 @@ def run(tier, replay=None):
     if replay:
         return semcheck.replay_file(ck, replay, cmp=("value", "report"))
     fams = props.c19_families(tier, vlib.seed())
-    semcheck.run_families(ck, fams, props.c19_nontrivial)
+    vs = semcheck.run_families(ck, fams, props.c19_nontrivial)
+    semcheck.binding_selftest(ck, vs)
     ck.cov["rule"] = props.c19_rule
     ck.assumptions += ["CalcSem.tla as evaluated by TLC is the oracle; Unspecified sessions are only checked for no-crash"]
     return ck.finish()
